@@ -56,6 +56,7 @@ const (
 	StrEscaped = iota // printable ASCII raw; ( ) \ escaped; LF CR TAB as \n \r \t; the rest as \ddd
 	StrRaw            // everything raw except \ and CR (and unbalanced parentheses)
 	StrHex            // <hex>
+	StrShortOctal     // as StrEscaped, but octal escapes in their shortest form (\1, \17) wherever the next character is not an octal digit
 	StrMixedEOL       // as StrRaw, but every LF is spelled as a raw CR, LF or CR LF in turn (all read as LF), with a \<CR> line continuation after the first blank
 	strForms
 )
@@ -211,7 +212,11 @@ func psString(s string, form int) string {
 		case c == '\t':
 			sb.WriteString(`\t`)
 		case c < 32 || c >= 127:
-			fmt.Fprintf(&sb, `\%03o`, c)
+			if form == StrShortOctal && (i+1 == len(s) || s[i+1] < '0' || s[i+1] > '7') {
+				fmt.Fprintf(&sb, `\%o`, c) // 8 and 9 are not octal digits: they end the escape
+			} else {
+				fmt.Fprintf(&sb, `\%03o`, c)
+			}
 		default:
 			sb.WriteByte(c)
 		}
